@@ -179,6 +179,8 @@ func extHash(k int) chainhash.Hash {
 	return h
 }
 
+const nullSrc = -100 // c10In.Src value for the null outpoint (all-zero hash, index 0xffffffff)
+
 func buildTxs(c c10Case) ([]*builtTx, error) {
 	var out []*builtTx
 	for ti, t := range c.Txs {
@@ -186,7 +188,9 @@ func buildTxs(c c10Case) ([]*builtTx, error) {
 		b.msg.LockTime = t.LockTime
 		for _, in := range t.Ins {
 			var prev chainhash.Hash
-			if in.Src >= 0 && ti > 0 {
+			if in.Src == nullSrc { // a coinbase-style input: null outpoint, the script is free-form data
+				in.Out = 0xffffffff
+			} else if in.Src >= 0 && ti > 0 {
 				prev = out[in.Src%ti].hash
 			} else {
 				k := -in.Src
@@ -265,6 +269,8 @@ func preloadItems(c c10Case, txs []*builtTx) [][]byte {
 		case "extoutpoint":
 			h := extHash(p.A%3 + 1)
 			items = append(items, outpointBytes(h[:], p.B))
+		case "nulloutpoint":
+			items = append(items, outpointBytes(make([]byte, 32), 0xffffffff))
 		}
 	}
 	return items
@@ -604,12 +610,15 @@ func genC10(t *rapid.T) c10Case {
 		// predecessor: P's output carries a watched item; each Yk spends the previous output and carries,
 		// as a data element, the serialisation of exactly the outpoint it spends.  Any block order.
 		depth := rapid.IntRange(2, 5).Draw(t, "depth")
+		if rapid.IntRange(0, 29).Draw(t, "deep") == 0 {
+			depth = rapid.IntRange(40, 90).Draw(t, "deepdepth") // long chains: re-check cascades must not give up
+		}
 		c.Flags = 1
 		c.Len, c.K = 2000, 10
 		c.Txs = nil
 		// the relevant output may sit at a high index (the outpoint's index is a 32-bit little-endian number)
 		pad := func() int {
-			switch rapid.IntRange(0, 19).Draw(t, "padcls") {
+			switch rapid.IntRange(0, 39).Draw(t, "padcls") {
 			case 0, 1, 2, 3:
 				return rapid.SampledFrom([]int{1, 15, 16, 254, 255, 256, 257}).Draw(t, "pad")
 			case 4:
@@ -633,6 +642,12 @@ func genC10(t *rapid.T) c10Case {
 		c.Preload = []c10Preload{{Kind: "item", A: 5 % len(c.Pool)}}
 		c.PermTag = "random"
 		c.Perm = rapid.Permutation(seqInts(len(c.Txs))).Draw(t, "perm")
+		if rapid.IntRange(0, 2).Draw(t, "rev") == 0 { // children strictly before their parents: the longest cascades
+			c.PermTag = "reverse-topological"
+			for i := range c.Perm {
+				c.Perm[i] = len(c.Txs) - 1 - i
+			}
+		}
 		return c
 	}
 	for ti := 0; ti < ntx; ti++ {
@@ -647,6 +662,8 @@ func genC10(t *rapid.T) c10Case {
 			} else if ti > 0 && rapid.IntRange(0, 2).Draw(t, "internal") > 0 {
 				in.Src = rapid.IntRange(0, ti-1).Draw(t, "src")
 				in.Out = uint32(rapid.IntRange(0, 3).Draw(t, "srcout"))
+			} else if i == 0 && rapid.IntRange(0, 7).Draw(t, "coinbase") == 0 {
+				in.Src = nullSrc // coinbase-style: only its script's pushes (or the null outpoint itself) can make it relevant
 			} else {
 				in.Src = -rapid.IntRange(1, 3).Draw(t, "ext")
 				in.Out = uint32(rapid.IntRange(0, 2).Draw(t, "extout"))
@@ -661,7 +678,7 @@ func genC10(t *rapid.T) c10Case {
 	}
 	np := rapid.IntRange(0, 4).Draw(t, "npre")
 	for i := 0; i < np; i++ {
-		p := c10Preload{Kind: rapid.SampledFrom([]string{"item", "item", "item", "txid", "outpoint", "extoutpoint"}).Draw(t, "pkind")}
+		p := c10Preload{Kind: rapid.SampledFrom([]string{"item", "item", "item", "item", "item", "txid", "txid", "outpoint", "outpoint", "extoutpoint", "extoutpoint", "nulloutpoint"}).Draw(t, "pkind")}
 		p.A = rapid.IntRange(0, 12).Draw(t, "pa")
 		p.B = uint32(rapid.IntRange(0, 3).Draw(t, "pb"))
 		c.Preload = append(c.Preload, p)
